@@ -126,6 +126,22 @@ def run(tier="quick", seed=0, prop="C16"):
                 else:
                     rec.update(status="proved")
             obligations.append(rec)
+        # the Orderer holds the provider-cached compiled ordering rulebook in self.rb: its methods may REBIND their own attributes
+        # (self.rb = merge_dicts(...)) and call their own methods, but must not write into the object behind an attribute
+        for fn in ("Orderer.__init__", "Orderer.insert", "Orderer.ref_insert"):
+            eff = an.summary("annet.annlib.patching", fn)
+            rec = dict(name="C20:effects:rebind-only:annet.annlib.patching.%s" % fn, kind="frame", line=0, contract=True,
+                       backend="effect-inference", time_s=0.0,
+                       note="%s rebinds attributes of self at most: no write into the shared rulebook behind self.rb, no module state" % fn)
+            if eff is None:
+                rec.update(status="unknown", note="not found")
+            else:
+                bad = sorted(p for p in eff.mutates if not (p[0] == "self" and len(p) == 2 and p[1].startswith("=.")))
+                if bad or eff.g_writes:
+                    rec.update(status="unknown", model="may mutate %s; globals %s" % (bad[:4], sorted(eff.g_writes)))
+                else:
+                    rec.update(status="proved")
+            obligations.append(rec)
     return dict(obligations=obligations, failures=failures, skipped=[])
 
 
